@@ -5,7 +5,10 @@ V = os.path.dirname(os.path.abspath(__file__))
 sys.path.insert(0, os.path.join(V, "checklib"))
 from props import PROPS
 from props import META
-from manifest_meta import NOT_APPLICABLE, HOOK_COMMITS, NOTES
+from manifest_meta import NOT_APPLICABLE, HOOK_COMMITS, NOTES, HOLD
+for _k in HOLD:
+    PROPS.pop(_k, None)
+NOT_APPLICABLE = dict(NOT_APPLICABLE, **HOLD)
 
 checks = []
 for pid in sorted(PROPS):
